@@ -1229,6 +1229,10 @@ class ClientRequest(ClientRequestBase):
                     "chunked can not be set "
                     'if "Transfer-Encoding: chunked" header is set'
                 )
+            # The header commits the request to chunked framing: frame the
+            # body accordingly and do not announce a Content-Length next to it.
+            self.chunked = True
+            self.headers.pop(hdrs.CONTENT_LENGTH, None)
 
         elif self.chunked:
             if hdrs.CONTENT_LENGTH in self.headers:
